@@ -117,6 +117,35 @@ def run_cli(argv, key):
         logging.disable(logging.NOTSET)
 
 
+def run_library_verify(base, target, key):
+    import logging
+    import gemato.recursiveloader as rl
+    import gemato.find_top_level as ft
+    import common
+    logging.disable(logging.CRITICAL)
+    try:
+        with ET.ScandirOrder(key):
+            try:
+                with common.watchdog(40):
+                    top = ft.find_top_level_manifest(target)
+                    if top is None:
+                        return ['exit', 1]
+                    m = rl.ManifestRecursiveLoader(top, verify_openpgp=False)
+                    calls = []
+                    r = m.assert_directory_verifies(os.path.relpath(target, os.path.dirname(top)) if os.path.relpath(target, os.path.dirname(top)) != '.' else '',
+                                                    fail_handler=calls.append)
+                return ['exit', 0 if (r and not calls) else 1]
+            except common.CaseTimeout:
+                return ['exc', 'Internal', 'DidNotTerminate']
+            except UnicodeDecodeError:
+                return ['exc', 'NotUTF8']
+            except Exception as e:
+                x = ET.impl.exc_sx(e)
+                return ['exc'] + x[1][:2]
+    finally:
+        logging.disable(logging.NOTSET)
+
+
 def model_class(m, cmd):
     """outcome class predicted by the model run of the library operations behind the command"""
     if m[0] != 'ok':
@@ -274,6 +303,13 @@ def c18(ctx):
                 out = run_cli(argv, key)
                 if ET.fd_count() > fd0 and out[0] == 'exit':
                     out = ['exc', 'DescriptorLeak', ET.fd_count() - fd0]
+                if c.meta['cmd'] == 'verify' and out[0] == 'exit':
+                    # the library behind it, with a caller's handler that only records (returns None): the same tree gives a Boolean
+                    # or a diagnosed failure, never an internal error
+                    lib = run_library_verify(b, argv[-1], key)
+                    if lib[0] == 'exc' and lib[1] == 'Internal':
+                        out = lib
+                        c.meta['front_end'] = 'library: assert_directory_verifies(path, fail_handler=calls.append)'
             except Exception as e:
                 out = ['harness-error', repr(e)]
             finally:
